@@ -144,16 +144,17 @@ theorem exactly_once_inv (cfg : Cfg) (hord : OrderOK cfg) (fuel : Nat) (s : Stat
 /-! ### The Spec's C01 clauses on every run of the model -/
 
 /-- **The Spec's routing clauses hold on every run of the model.**  For every configuration meeting the side conditions
-(`CfgOK`, automatic fuel, `OrdPerm`: the iteration order of a Python `set` visits every element once — insertion order
+(`CfgOK`, automatic fuel, CLIENT_CLOSED is not the ALL_MESSAGE_TYPES sentinel;
+`OrdPerm`: the iteration order of a Python `set` visits every element once — insertion order
 and its reverse, which the driver uses, are instances) and every history whose frames are read from connections (never
 from the manager's own table entry, uid 0 — true of every generated history), the verdict `Spec.runSpec` computes from
 the history and the model's own events has no C01 entry: whatever sequence of accepts, connects, (un)subscriptions,
 pauses, disconnects, socket failures, writable sets and clock values precedes it, every published frame reaches exactly
 the eligible subscribers the Spec's own bookkeeping expects, once, unmodified. -/
 theorem spec_data_clause_passes_on_model (cfg : Cfg) (ok : CfgOK cfg) (hfuel : cfg.fuel = 0) (hperm : OrdPerm cfg)
-    (rs : List Round) (hwf : RoundsWF rs) :
+    (hmt : cfg.mtClosed ≠ cfg.allTypes) (rs : List Round) (hwf : RoundsWF rs) :
     (Spec.runSpec cfg rs (Pyrtma.Drv.Manager.modelRun cfg rs).1 none).errs.filter (·.1 == "C01") = [] :=
-  spec_passes_on_model ok hfuel hperm rs hwf "C01" (by simp [proven])
+  spec_passes_on_model ok hfuel hperm hmt rs hwf "C01" (by simp [proven]) (fun h => absurd h (by decide))
 
 /-! ### Non-vacuity: a concrete three-module state, one subscribe-all logger, one addressed message -/
 
